@@ -7,7 +7,8 @@ package pbproto
 
 // C15: decoding never writes into a shared status
 //@ func (*pbproto).Unpack
-//@   property C15 C12 C06
+//@   property C15 C12 C06 C04
+//@   ensures[status-field-decoded] @C04 result == nil && as(m, type(*socket.message)).size != 0 ==> as(m, type(*socket.message)).status != nil && as(m, type(*socket.message)).status.#fromWire
 //@   requires msgOwnStatus(as(m, type(*socket.message)))
 
 //@   requires[no-pending-refusal] @C12 !ghost.appendFailed
